@@ -1,8 +1,8 @@
 (* extraction of the C11 executable models; ExtrOcamlBasic only *)
 Require Extraction.
 Require Import ExtrOcamlBasic.
-Require Import Base Tables_rules LintGroupCfg C11Curated C11Cache C11JsonValue Tables_c11routes.
+Require Import Base Tables_rules LintGroupCfg C11Curated C11Cache C11ChunkKey C11JsonValue Tables_c11routes.
 Extraction Language OCaml.
 Extraction "../ocaml/gen/c11_model.ml" run_cops run_dispatch parse_cfg print_cfg hash_calls hash_bytes
-  curated_cfg curated_names is_rule_enabled get program_cfg program_names run_history
+  curated_cfg curated_names is_rule_enabled get program_cfg program_names run_history run_token_history
   parse_json from_value lsp_lint_config lsp_other_keys.
